@@ -91,10 +91,10 @@ def decSet (key value : Bytes) (keepTTL : Bool) : Val → Int → Act :=
 
 theorem set_eq (s : MState) (now : Int) (key value : Bytes) (keepTTL : Bool) :
     Api.set s now key value keepTTL =
-      keyTx true (some .strNil) .unit (fun s1 => (s1, .panic)) (decSet key value keepTTL) s now key := by
+      keyTx true (some (.str [])) .unit (fun s1 => (s1, .panic)) (decSet key value keepTTL) s now key := by
   unfold Api.set keyTx
   simp only [if_true, Option.isNone_some, Bool.and_false, Bool.false_eq_true, if_false]
-  generalize writeKey s now key (some .strNil) = r
+  generalize writeKey s now key (some (.str [])) = r
   obtain ⟨s1, ok⟩ := r
   simp only [Api.asStr]
   cases valOf s1 key with
@@ -106,10 +106,10 @@ def decGetSet (key value : Bytes) : Val → Int → Act :=
     (fun _ => .panic)
 
 theorem getSet_eq (s : MState) (now : Int) (key value : Bytes) :
-    Api.getSet s now key value = keyTx true (some .strNil) .unit (fun s1 => (s1, .panic)) (decGetSet key value) s now key := by
+    Api.getSet s now key value = keyTx true (some (.str [])) .unit (fun s1 => (s1, .panic)) (decGetSet key value) s now key := by
   unfold Api.getSet keyTx
   simp only [if_true, Option.isNone_some, Bool.and_false, Bool.false_eq_true, if_false]
-  generalize writeKey s now key (some .strNil) = r
+  generalize writeKey s now key (some (.str [])) = r
   obtain ⟨s1, ok⟩ := r
   simp only [Api.asStr]
   cases valOf s1 key with
@@ -122,10 +122,10 @@ def decAppend (key value : Bytes) : Val → Int → Act :=
     (fun _ => .panic)
 
 theorem append_eq (s : MState) (now : Int) (key value : Bytes) :
-    Api.append s now key value = keyTx true (some .strNil) .unit (fun s1 => (s1, .panic)) (decAppend key value) s now key := by
+    Api.append s now key value = keyTx true (some (.str [])) .unit (fun s1 => (s1, .panic)) (decAppend key value) s now key := by
   unfold Api.append keyTx
   simp only [if_true, Option.isNone_some, Bool.and_false, Bool.false_eq_true, if_false]
-  generalize writeKey s now key (some .strNil) = r
+  generalize writeKey s now key (some (.str [])) = r
   obtain ⟨s1, ok⟩ := r
   simp only [Api.asStr]
   cases valOf s1 key with
@@ -160,10 +160,10 @@ def decAddInt (key : Bytes) (delta : Int) (neg : Bool) : Val → Int → Act :=
 
 theorem addInt_eq (s : MState) (now : Int) (key : Bytes) (delta : Int) (neg sw : Bool) :
     Api.addInt s now key delta neg sw =
-      keyTx true (some .strNil) .unit (fun s1 => (s1, .panic)) (decAddInt key delta neg) s now key := by
+      keyTx true (some (.str [])) .unit (fun s1 => (s1, .panic)) (decAddInt key delta neg) s now key := by
   unfold Api.addInt keyTx
   simp only [if_true, Option.isNone_some, Bool.and_false, Bool.false_eq_true, if_false]
-  generalize writeKey s now key (some .strNil) = r
+  generalize writeKey s now key (some (.str [])) = r
   obtain ⟨s1, ok⟩ := r
   simp only [Api.asStr]
   cases valOf s1 key with
